@@ -6,6 +6,7 @@
           shape     [lines, n, h, ps, err, rl]        set_shape (h = -1: height None)
           split     [segs, err, rl]                   split_lines
           simplify  [segs, err, r]                    simplify
+          measure   [lines, err, lens, w, h]          get_line_length of every line, get_shape
    Verdict: "ok", "<failing property clause>", or "drift ..." when only the transcription of
    segment.py disagrees.                                                                    *)
 EXTENDS Segments, CellsData
@@ -23,6 +24,7 @@ PropWhy(r) ==
       [] r.k = "shape"     -> SetShapeWhy(LinesOf(r.lines), r.n, r.h, r.ps, LinesOf(r.rl))
       [] r.k = "split"     -> SplitLinesWhy(LineOf(r.segs), LinesOf(r.rl))
       [] r.k = "simplify"  -> SimplifyWhy(LineOf(r.segs), LineOf(r.r))
+      [] r.k = "measure"   -> MeasureWhy(LinesOf(r.lines), r.lens, r.w, r.h)
       [] OTHER -> "unknown-record-kind"
 
 AgreesWithRef(r) ==
